@@ -3,6 +3,31 @@ import codec_common as cc
 import codec_impl as ci
 
 
+class IndexLike:
+    """An integer-like object that is not an int (what numpy integers look like to ctypes)."""
+
+    def __init__(self, v):
+        self.v = int(v)
+
+    def __index__(self):
+        return self.v
+
+    def __int__(self):
+        return self.v
+
+    def __eq__(self, other):
+        try:
+            return int(other) == self.v
+        except Exception:
+            return NotImplemented
+
+    def __hash__(self):
+        return hash(self.v)
+
+    def __repr__(self):
+        return f"IndexLike({self.v})"
+
+
 def text_entry(ctx, impl, n):
     """Entry point 2: the text assembler.  Out-of-range operands written as text
     must raise at parse or at bytes(); never yield bytes decoding to something else."""
@@ -123,6 +148,7 @@ def run(ctx):
     ctx.props("C16")
     n_seq = 250 if ctx.tier == "quick" else 8000
     cases = cc.gen_sequences(ctx, impl, n_seq, 6, oor_fraction=0.7, per_class_boundary=False)
+    cases += cc.published_boundary_cases(impl)
     # plus: every class x every leaf that can be out of range, just outside on both sides
     for fname in cc.FLAVS:
         for row in impl.t["flavours"][fname]["rows"]:
@@ -154,6 +180,36 @@ def run(ctx):
             ctx.violation("decode(encode(s)) != s on the implementation (app id given through instantiate())",
                           dict(entry="instantiate", flavour=fname, version=[v0, v1], app_id=app, body=body, got=res["dec"]))
     impl.app_via_instantiate = False
+    # entry point 1c: operand values handed over as integer-like objects that are not `int` (numpy integers
+    # as computed angles / indices; any class with __index__): ctypes accepts those through __index__ and
+    # truncates.  Refusing them is fine; encoding them to something else is not.
+    wrappers = [("__index__ object", IndexLike)]
+    try:
+        import numpy as np
+        wrappers += [("numpy.int64", lambda v: np.int64(v) if -2 ** 63 <= v < 2 ** 63 else IndexLike(v)),
+                     ("numpy.uint16", lambda v: np.uint16(v) if 0 <= v < 2 ** 16 else np.int64(v) if -2 ** 63 <= v < 2 ** 63 else IndexLike(v))]
+    except ImportError:
+        pass
+    n_like = 0
+    like_cases = [c for c in cases if c[5] in ("oor-leaf", "seq", "oor")][: (300 if ctx.tier == "quick" else 4000)]
+    for k, c in enumerate(like_cases):
+        fname, v0, v1, app, body, tag = c
+        wname, w = wrappers[k % len(wrappers)]
+        impl.int_wrapper = w
+        try:
+            res = impl.run_ecase(fname, v0, v1, app, body)
+        finally:
+            impl.int_wrapper = None
+        n_like += 1
+        ctx.note_case(("int-like", wname, fname, str(body)))
+        if res["bytes"] is not None and res["dec"] is not None:
+            want = [(n, [int(x) for x in lv]) for n, lv in body]
+            got = [(n, [int(x) for x in lv]) for n, lv in res["dec"][3]]
+            if want != got:
+                ctx.violation(f"operand values given as {wname}: encoded without error, decode to different values",
+                              dict(entry="int-like", type=wname, flavour=fname, version=[v0, v1], app_id=app,
+                                   body=[[n, [int(x) for x in lv]] for n, lv in body], got=res["dec"]))
+    ctx.coverage["int_like_cases"] = n_like
     nt = text_entry(ctx, impl, 60 if ctx.tier == "quick" else 600)
     try:
         ns = sdk_entry(ctx, 8 if ctx.tier == "quick" else 60)
